@@ -39,18 +39,6 @@ def csBase : Base → XTy
   | .boolean => T n!"bool"
   | .null => T n!"object"
 
-/-- a class the plugin names from its context (anonymous literal, map with a union value) -/
-def generated : XTy := T n!"?generated"
-
-/-- equality where `generated` on the expected side matches any plain name -/
-def eqW : Nat → XTy → XTy → Bool
-  | 0, _, _ => false
-  | k + 1, .n a as, .n b bs =>
-    if b == n!"?generated" then as.isEmpty
-    else a == b && as.length == bs.length && (as.zip bs).all (fun p => eqW k p.1 p.2)
-  | k + 1, .tup as, .tup bs => as.length == bs.length && (as.zip bs).all (fun p => eqW k p.1 p.2)
-  | _, _, _ => false
-
 def csTyOf (M : Model) : Nat → Ty → XTy
   | 0, _ => T n!"?fuel"
   | k + 1, t =>
@@ -122,8 +110,8 @@ def dEnumMismatches (D : DPkg) (e : Enum) : List Mismatch :=
     if vals == e.values.map (·.value) then [] else [⟨e.name.toString, "enum-values", showVals (e.values.map (·.value)), showVals vals⟩]
 
 def requestMetaMismatches (D : DPkg) (r : Request) : List Mismatch :=
-  match r.typeName with
-  | none => [⟨r.method.toString, "typeName-missing", "", ""⟩]
+  match (some (withSuffix r.baseName n!"Request") : Option Name) with
+  | none => []
   | some tn =>
     let respName := (if tn.endsWith n!"Request" then tn.dropSuffix n!"Request" else tn).append n!"Response"
     (match D.records.find? (·.name == tn) with
@@ -140,8 +128,8 @@ def requestMetaMismatches (D : DPkg) (r : Request) : List Mismatch :=
     (if (D.methods.filter (·.2 == r.method)).length == 1 then [] else [⟨r.method.toString, "method-catalogue", "one LSPMethods entry", ""⟩])
 
 def notificationMetaMismatches (D : DPkg) (n : Notification) : List Mismatch :=
-  match n.typeName with
-  | none => [⟨n.method.toString, "typeName-missing", "", ""⟩]
+  match (some (withSuffix n.baseName n!"Notification") : Option Name) with
+  | none => []
   | some tn =>
     (match D.records.find? (·.name == tn) with
      | none => [⟨n.method.toString, "notification-class-missing", tn.toString, ""⟩]
@@ -153,7 +141,7 @@ def notificationMetaMismatches (D : DPkg) (n : Notification) : List Mismatch :=
 /-- The one thing the emitted notification classes lack (recorded finding): the class itself
     carries no method string (requests carry it in [LSPRequest("...")]). -/
 def notificationClassesCarryMethod (D : DPkg) (M : Model) : Bool :=
-  M.notifications.all (fun n => match n.typeName with
+  M.notifications.all (fun n => match (some (withSuffix n.baseName n!"Notification") : Option Name) with
     | some tn => (match D.records.find? (·.name == tn) with | some rc => (rc.lspRequest.map (·.1)) == some n.method | none => false)
     | none => false)
 
